@@ -172,7 +172,8 @@ def o_option_plumbing(ctx):
     ctx.claim('reported-exactly-the-listed-groups-that-exist', sorted(rep) == expect, detail='%r: reported %r, expected %r' % (args, rep, expect))
 
 
-SITES = {'pair_CYS_CYS_bridge': ['E:41', 'E:42', 'E:57', 'E:58'], 'pair_GLU_ARG_TYR': ['A:34', 'A:35', 'A:57', 'A:59'], 'pair_LYS_ASP': ['A:42', 'A:43', 'A:59', 'A:60'], 'pep8': ['A:25', 'A:29', 'A:30']}
+SITES = {'pair_CYS_CYS_bridge': ['E:41', 'E:42', 'E:57', 'E:58'], 'pair_GLU_ARG_TYR': ['A:34', 'A:35', 'A:57', 'A:59'], 'pair_LYS_ASP': ['A:42', 'A:43', 'A:59', 'A:60'], 'pep8': ['A:25', 'A:29', 'A:30'],
+         'tri_GLU$21': ['A:20', 'A:21'], 'tri_ASP$25': ['A:24', 'A:25']}
 
 
 def mk_pipeline(name, max_shift=2509):
@@ -202,6 +203,14 @@ def mk_pipeline(name, max_shift=2509):
             num = int(lab[3:7])
             ctx.claim('reported-iff-listed', (rep.count(lab) == 1) == ((lab[8], num) in want), detail='%r listed=%r reported=%r' % (lab, sorted(want), rep))
         ctx.claim('nothing-else-reported', all(l in M.reported(base) for l in rep))
+        # 'exactly the ionizable groups of the listed residues': what a listed residue has is read off the input, not off the
+        # run without the option -- a listed residue that carries OXT has its C-terminus reported, the first residue its N-terminus
+        recs = [l for l in M.text(name).split('\n') if l.startswith('ATOM')]
+        for chain, num in sorted(want):
+            if any(l[21] == chain and int(l[22:26]) == num and l[12:16].strip() == 'OXT' for l in recs):
+                ctx.claim('c-terminus-of-a-listed-residue-reported', any(l.startswith('C-') and int(l[3:7]) == num and l[8] == chain for l in rep), detail='%s:%d: %r' % (chain, num, rep))
+            if recs and recs[0][21] == chain and int(recs[0][22:26]) == num and recs[0][17:20] != 'PRO':
+                ctx.claim('n-terminus-of-a-listed-residue-reported', any(l.startswith('N+') and int(l[3:7]) == num and l[8] == chain for l in rep), detail='%s:%d: %r' % (chain, num, rep))
         for key in gb:
             for a, b in zip(gb[key], go.get(key, [])):
                 if b.titratable:
@@ -274,7 +283,8 @@ def obligations(tier):
     obs.append(Obligation('O5-option-plumbing', o_option_plumbing, code=['propka/lib.py:loadOptions', 'propka/lib.py:parse_res_list', 'propka/run.py:single (whole pipeline)'],
                           bounds='5 command lines combining -i with -c (entries on read and unread chains) on the two-chain micro-structure', kind='table-check',
                           claim_doc='options.titrate_only is the parsed list; exactly the listed groups that exist in what was read are reported'))
-    for name in (['pair_GLU_ARG_TYR', 'pair_CYS_CYS_bridge'] if tier == 'quick' else ['pair_GLU_ARG_TYR', 'pair_CYS_CYS_bridge', 'pair_LYS_ASP', 'pep8']):
+    # ('tri_GLU$21': residue 21 made the C-terminus -- a residue with two groups of one type, side chain and terminus)
+    for name in (['pair_GLU_ARG_TYR', 'pair_CYS_CYS_bridge', 'tri_GLU$21'] if tier == 'quick' else ['pair_GLU_ARG_TYR', 'pair_CYS_CYS_bridge', 'pair_LYS_ASP', 'pep8', 'tri_GLU$21', 'tri_ASP$25']):
         obs.append(Obligation('O3-pipeline[%s]' % name, mk_pipeline(name, 300 if tier == 'quick' else 2509),
                               code=['propka/run.py:single (whole pipeline)', 'propka/conformation_container.py:ConformationContainer.init_group', 'propka/energy.py:radial_volume_desolvation',
                                     'propka/determinants.py:set_determinants', 'propka/output.py:get_summary_section'],
